@@ -16,7 +16,7 @@ RULE = ("per suite, pending server states of 4 kinds (real record + right passwo
 ASSUMPTIONS = ["substitution enumeration is exhaustive per pending state in both tiers (all 255 values at every offset, all bit flips); "
                "the space of ALL byte strings of the finalization length is only sampled (other sessions, constants, random)"]
 EXHAUSTIVE = {"quick": "all Nh*8 single-bit flips and all Nh*255 single-byte substitutions of the base finalization, per pending state (7 states x 20 suites)",
-              "thorough": "all Nh*8 single-bit flips and all Nh*255 single-byte substitutions of the base finalization, per pending state (21 states x 20 suites)"}
+              "thorough": "all Nh*8 single-bit flips and all Nh*255 single-byte substitutions of the base finalization, per pending state (84 states x 20 suites)"}
 
 
 def jobs(tier, seed):
@@ -32,7 +32,7 @@ def run_job(job):
     nontriv = 0
     with okv.Session(su) as s:
         nh = s.sz.nh
-        nworlds = 1 if tier == "quick" else 4
+        nworlds = 1 if tier == "quick" else 12
         for wi in range(nworlds):
             rng = s.rng("r", proto.H("c03", su, job["seed"], wi))
             s.cmd("setup_new", rng=rng, out="S")
